@@ -409,8 +409,8 @@ def render : Expr → List Tok
   | .field e => .dollar :: render e
   | .index a i => .name a :: .lbracket :: render i ++ [.rbracket]
   | .getline cmd target file =>
-    (match cmd with | .none => [] | c => render c ++ [.pipe]) ++ .getline :: render target ++
-    (match file with | .none => [] | f => .cmp .lt :: render f)
+    (if cmd = .none then [] else render cmd ++ [.pipe]) ++ .getline :: render target ++
+    (if file = .none then [] else .cmp .lt :: render file)
 
 /-- erase `group` nodes -/
 def strip : Expr → Expr
